@@ -70,7 +70,44 @@ META_FAULTS = [("statx", "error=EIO"), ("statx", "error=ENOMEM"), ("statx", "err
 TARGETS_EXISTING = ["file", "dir", "symlink-file"]
 
 
+_ADVERTISED = None
+
+
+def advertised_env():
+    """Environment variables the binary itself says it reads (clap prints `[env: NAME=]` in
+    --help), apart from RUST_LOG: the environment is an input the simulator owns."""
+    global _ADVERTISED
+    if _ADVERTISED is None:
+        import re
+        try:
+            p = subprocess.run([BIN, "--help"], stdout=subprocess.PIPE, stderr=subprocess.DEVNULL, timeout=60)
+            names = re.findall(r"\[env: ([A-Za-z_][A-Za-z0-9_]*)=", p.stdout.decode("utf-8", "replace"))
+        except Exception:
+            names = []
+        _ADVERTISED = sorted(set(n for n in names if n != "RUST_LOG"))
+    return _ADVERTISED
+
+
 def gen_case(seed, i, thorough):
+    c = gen_case_core(seed, i, thorough)
+    # drawn from its own stream (every other draw stays what it was): a hostile environment -
+    # whatever variables the binary advertises, set to something a wrapper script might export
+    names = advertised_env()
+    if names:
+        r = random.Random((seed << 22) ^ (i * 69069) ^ 0xE57)
+        if r.random() < 0.6:
+            c["env"] = {r.choice(names): r.choice(["true", "1", "yes", "false", ""])}
+    if PROPERTY == "C06":
+        # the C06 part: fault-free runs only - export, semantics in the same run, re-import,
+        # second generation; the printed answers are the observation point of canonicity
+        c["fault"] = None
+        c["target"] = "absent"
+        c.pop("import_fault", None)
+        c["chain"] = (i % 2 == 0)
+    return c
+
+
+def gen_case_core(seed, i, thorough):
     c = gen_case_inner(seed, i, thorough)
     r = random.Random((seed << 21) ^ (i * 40503) ^ 0x50F7)
     # the stored variable order is what counts: a sorting flag given together with --import
@@ -113,11 +150,12 @@ def gen_case_inner(seed, i, thorough):
 # ---------------------------------------------------------------------------------------------
 # one simulated CLI world
 # ---------------------------------------------------------------------------------------------
-def run_bin(args, cwd, strace=None, fsize=None, timeout=120):
+def run_bin(args, cwd, strace=None, fsize=None, timeout=120, extra_env=None):
     cmd = [BIN] + args
     if strace:
         cmd = ["strace", "-f", "-qq", "-o", os.path.join(cwd, "strace.out")] + strace + cmd
     env = {"PATH": os.environ.get("PATH", "/usr/bin:/bin"), "RUST_LOG": "error"}
+    env.update(extra_env or {})
     pre = None
     if fsize is not None:
         def pre():
@@ -179,7 +217,7 @@ def execute(case, workdir):
             fsize = fl["when"]
         elif fl:
             strace = ["-e", "trace=%s" % fl["syscall"], "-P", "F.json", "-P", F, "-e", "inject=%s:%s:when=%d" % (fl["syscall"], fl["kind"], fl["when"])]
-        rc, out, err = run_bin(["--lib", "naive", "--export", "F.json"] + case["flags"] + ["in.adf"], workdir, strace, fsize)
+        rc, out, err = run_bin(["--lib", "naive", "--export", "F.json"] + case["flags"] + ["in.adf"], workdir, strace, fsize, extra_env=case.get("env"))
         info["export_exit"] = rc
         if fsize is not None:
             try:
@@ -343,6 +381,8 @@ def arg(args, name, default=None):
 
 
 def cmd_run(args):
+    global PROPERTY
+    PROPERTY = arg(args, "--property", "C14")
     t0 = time.time()
     thorough = arg(args, "--tier", "quick") == "thorough"
     seed = int(arg(args, "--seed", "20260926"))
@@ -429,7 +469,7 @@ def cmd_run(args):
                 continue
             seen_kinds.add(kind)
             case2, v2, sh = shrink(case, v, os.path.join(work, "cli-shrink-%d" % os.getpid()))
-            path = os.path.join(replays, "C14-cli-%d-%d.json" % (seed, i))
+            path = os.path.join(replays, "%s-cli-%d-%d.json" % (PROPERTY, seed, i))
             with open(path, "w") as f:
                 json.dump({"engine": "clisim", "property": PROPERTY, "scenario": "cli", "seed": seed, "run_index": i, "plan": case2, "decisions": [], "violation": v2, "shrink": sh}, f, indent=1)
             # confirm in a fresh process
